@@ -36,25 +36,61 @@ pub fn gen(r: &mut Rng) -> Value {
         let t: String = (0..n).map(|_| *r.pick(&alphabet)).collect();
         return json!({"text": t});
     }
+    let names = pool_cached();
+    if names.is_empty() {
+        return json!({"text": ""});
+    }
     let n = 1 + r.below(5);
     let lines: Vec<Value> = (0..n)
         .map(|_| {
+            let name = r.pick(names).to_string();
             let k = r.below(5);
+            let untyped = |r: &mut Rng| match r.below(9) {
+                0 | 1 => r.pick(&NUMS).to_string(),
+                2 | 3 => r.pick(&TEXTS).to_string(),
+                4 => r.pick(&HANDLES).to_string(),
+                5 => r.pick(&FLAGS).to_string(),
+                6 => r.pick(&DOCS).to_string(),
+                7 => r.pick(&["${v}", "${undefined}", "%{v}", "${out}", "v", "out", "h_arr"]).to_string(),
+                _ => r.pick(&NUMS).to_string(),
+            };
+            // typed pool per command family (two thirds of the lines): the arguments a command expects, so that its
+            // deeper paths run; the rest stays untyped
+            let typed = r.chance(2, 3);
             let args: Vec<String> = (0..k)
-                .map(|_| match r.below(9) {
-                    0 | 1 => r.pick(&NUMS).to_string(),
-                    2 | 3 => r.pick(&TEXTS).to_string(),
-                    4 => r.pick(&["${h_arr}", "${h_map}", "${h_set}", "${h_rel}", "handle:garbage", "${h_nested}"]).to_string(),
-                    5 => r.pick(&FLAGS).to_string(),
-                    6 => r.pick(&DOCS).to_string(),
-                    7 => r.pick(&["${v}", "${undefined}", "%{v}", "${out}", "v", "out", "h_arr"]).to_string(),
-                    _ => r.pick(&NUMS).to_string(),
+                .map(|i| {
+                    if !typed {
+                        return untyped(r);
+                    }
+                    let coll = name.starts_with("array") || name.starts_with("map") || name.starts_with("set_") || name.starts_with("is_") || name == "release";
+                    if coll {
+                        if i == 0 { r.pick(&HANDLES).to_string() } else if r.chance(1, 2) { r.pick(&NUMS).to_string() } else { r.pick(&TEXTS).to_string() }
+                    } else if name.contains("json") {
+                        if r.chance(1, 3) { r.pick(&["--collection", "-c", "v", "out"]).to_string() } else { r.pick(&DOCS).to_string() }
+                    } else if name.contains("semver") {
+                        r.pick(&["1.2.3", "1.2", "0.0.0", "1.2.3-alpha+7", "v1.2.3", "", "99999999999999999999.1.1", "1.2.3.4", "a.b.c"]).to_string()
+                    } else if name == "calc" || name.starts_with("hex") || name.contains("than") || name.starts_with("random") {
+                        r.pick(&["0", "1", "-1", "7", "1 + 2", "1 / 0", "10 % 0", "2 ^ 3", "(", ")", "1 +", "0x1F", "0xZZ", "ff", "-0x1", "1e3", "1.5", "99999999999999999999", "abc", ""]).to_string()
+                    } else if name.contains("base64") || name.contains("bytes") || name.contains("digest") || name.contains("sum") {
+                        match r.below(4) { 0 => r.pick(&FLAGS).to_string(), 1 => r.pick(&HANDLES).to_string(), 2 => r.pick(&DOCS).to_string(), _ => r.pick(&TEXTS).to_string() }
+                    } else if name.contains("substring") || name.contains("indexof") || name.contains("split") || name.contains("replace") || name.contains("trim") || name.contains("case") || name.contains("with") || name == "length" || name == "strlen" || name == "concat" {
+                        if r.chance(1, 2) { r.pick(&TEXTS).to_string() } else { r.pick(&NUMS).to_string() }
+                    } else {
+                        untyped(r)
+                    }
                 })
                 .collect();
-            json!({"cmd": r.below(100000), "args": args})
+            json!({"name": name, "args": args})
         })
         .collect();
     json!({ "lines": lines })
+}
+
+const HANDLES: [&str; 6] = ["${h_arr}", "${h_map}", "${h_set}", "${h_rel}", "handle:garbage", "${h_nested}"];
+
+fn pool_cached() -> &'static Vec<String> {
+    static POOL: std::sync::OnceLock<Vec<String>> = std::sync::OnceLock::new();
+    POOL.get_or_init(pool)
 }
 
 fn quote(s: &str) -> String {
@@ -99,13 +135,9 @@ pub fn run(input: &Value) -> Option<Value> {
     let script = if let Some(t) = input["text"].as_str() {
         t.to_string()
     } else {
-        let names = pool();
-        if names.is_empty() {
-            return None;
-        }
         let mut s = String::from("h_arr = array a b c\nh_map = map\nmap_put ${h_map} k v\nh_set = set_new x y\nh_rel = array z\nrelease ${h_rel}\nh_nested = array ${h_arr} ${h_map}\nv = set \"some value\"\n");
         for l in input["lines"].as_array()? {
-            let cmd = &names[(l["cmd"].as_u64()? as usize) % names.len()];
+            let cmd = l["name"].as_str()?;
             let args: Vec<String> = l["args"].as_array()?.iter().map(|a| quote(a.as_str().unwrap_or(""))).collect();
             s.push_str(&format!("out = {} {}\n", cmd, args.join(" ")));
         }
